@@ -57,6 +57,10 @@ def dual_xsd(case):
     named = []
     body = cm.render_particle(case['model'], named)
     decls = ''.join('<xs:element name="%s" type="xs:string"/>' % k for k in ('a', 'b', 'h', 'k'))
+    # further members that belong to one group only (directly and transitively): the shared member is then not the only,
+    # and not necessarily the first, substitute of either head
+    decls += ('<xs:element name="n1" type="xs:string" substitutionGroup="t:h"/><xs:element name="n2" type="xs:string" substitutionGroup="t:n1"/>'
+              '<xs:element name="q1" type="xs:string" substitutionGroup="t:k"/>')
     decls += '<xs:element name="m" type="xs:string" substitutionGroup="t:h t:k"/>'
     return ('<xs:schema xmlns:xs="http://www.w3.org/2001/XMLSchema" targetNamespace="%s" xmlns:t="%s" '
             'elementFormDefault="qualified">%s%s<xs:element name="r"><xs:complexType>%s</xs:complexType></xs:element></xs:schema>'
